@@ -545,6 +545,12 @@ def init(table, reload=False):
     assert ('density' in table.properties and 'mass' in table.properties), \
         "Neutron table requires mass and density properties"
 
+    # The class-level defaults below replace the delayed loader for the
+    # public table, so make sure it has run before clobbering it (this
+    # happens when a private table is initialised before the public table
+    # is first used).
+    getattr(table[0], 'neutron', None)
+
     # Defaults for missing neutron information
     missing = Neutron()
     Isotope.neutron = missing
